@@ -98,8 +98,9 @@ def token_conservation_rule(ck, ix):
             for c in ast.walk(st):
                 if is_next(c):
                     cond += 1
-                    ok = isinstance(st, ast.Assign) and st.value is c and isinstance(st.targets[0], ast.Name) and \
-                        any(isinstance(y, ast.Expr) and isinstance(y.value, ast.Yield) and isinstance(y.value.value, ast.Name) and y.value.value.id == st.targets[0].id for y in iff.body)
+                    ok = (isinstance(st, ast.Assign) and st.value is c and isinstance(st.targets[0], ast.Name) and
+                          any(isinstance(y, ast.Expr) and isinstance(y.value, ast.Yield) and isinstance(y.value.value, ast.Name) and y.value.value.id == st.targets[0].id for y in iff.body)) \
+                        or (isinstance(st, ast.Expr) and isinstance(st.value, ast.Yield) and st.value.value is c)
                     ck.check(ok, "G-TYPESTATE", f"uncertainty_tokenizer|optional-token-is-yielded|if {norm(iff.test)}", tok.loc(st), "an optional token is passed on unchanged",
                              f"under `if {norm(iff.test)}:` a token is consumed with `{norm(st)}` and not yielded: an optional token (the sign of the nominal value) is content, dropping it changes the value")
     ck.floor("G-TYPESTATE", cond, 1, "conditionally consumed tokens in uncertainty_tokenizer")
@@ -234,9 +235,18 @@ def run(ck, ix, tier):
     ck.analysed(fb)
     cfg = cfg_of(fb)
     # right-associativity only for ** and ^
-    ra = [t for t in walk_local(fb.node) if isinstance(t, ast.Compare) and isinstance(t.ops[0], ast.NotIn) and norm(t.left) == "token_text"]
-    ok = len(ra) == 1 and isinstance(ra[0].comparators[0], (ast.Tuple, ast.List, ast.Set)) and sorted(e.value for e in ra[0].comparators[0].elts if isinstance(e, ast.Constant)) == ["**", "^"]
-    ck.check(ok, "G-TABLE", "_build_eval_tree|right-associative-only-power", fb.loc(ra[0]) if ra else fb.loc(), "only ** and ^ group right-to-left", "the set of right-associative operators is no longer exactly {**, ^}")
+    from .. import shape
+    consts = shape.module_constants(fb.module)
+    ra = []
+    for t in walk_local(fb.node):
+        if isinstance(t, ast.Compare) and isinstance(t.ops[0], (ast.NotIn, ast.In)) and norm(t.left) == "token_text":
+            comp = t.comparators[0]
+            if isinstance(comp, ast.Name) and comp.id in consts:
+                comp = consts[comp.id]  # a module-level constant
+            if isinstance(comp, (ast.Tuple, ast.List, ast.Set)) and all(isinstance(e, ast.Constant) and isinstance(e.value, str) for e in comp.elts) and any(e.value in ("**", "^") for e in comp.elts):
+                ra.append((t, sorted(e.value for e in comp.elts)))
+    ok = len(ra) == 1 and ra[0][1] == ["**", "^"]
+    ck.check(ok, "G-TABLE", "_build_eval_tree|right-associative-only-power", fb.loc(ra[0][0]) if ra else fb.loc(), "only ** and ^ group right-to-left", f"the set of right-associative operators is {[r[1] for r in ra]}, not exactly {{**, ^}}")
     cmps = [c for c in walk_local(fb.node) if isinstance(c, ast.Compare) and "op_priority.get(prev_op, -1)" in norm(c.comparators[0]) and "op_priority[" in norm(c.left)]
     ck.check(len(cmps) == 2, "G-TABLE", "_build_eval_tree|two-priority-comparisons", fb.loc(), "explicit and implicit operators compare their priority with the enclosing operator", f"{len(cmps)} priority comparisons found (expected 2)")
     for c in cmps:
@@ -248,17 +258,17 @@ def run(ck, ix, tier):
     # every `return result, ...` needs result to be known non-None
     rets = [r for r in return_nodes(cfg) if isinstance(cfg.nodes[r].ast.value, ast.Tuple) and norm(cfg.nodes[r].ast.value.elts[0]) == "result"]
     ck.floor("G-DOM", len(rets), 3, "returns of the tree builder")
-    asserts = [n.id for n in cfg.nodes if n.kind == "stmt" and isinstance(n.ast, ast.Assert) and norm(n.ast.test) == "result is not None"]
-    rtests = [n.id for n in cfg.nodes if n.kind == "test" and norm(n.ast) == "result"]
+    # a path to `return result, ...` on which result was never assigned, never tested truthy and never asserted non-None
+    # returns None as a sub-tree (result starts as None and is only ever assigned tree nodes)
+    asserts = [n.id for n in cfg.nodes if n.kind == "stmt" and isinstance(n.ast, ast.Assert) and norm(n.ast.test) in ("result is not None", "result")]
+    assigns = [n.id for n in cfg.nodes if n.kind == "stmt" and isinstance(n.ast, ast.Assign) and any(isinstance(t, ast.Name) and t.id == "result" for t in n.ast.targets)
+               and not (isinstance(n.ast.value, ast.Constant) and n.ast.value.value is None)]
+    truthy = shape.guard_edges(cfg, lambda a: (isinstance(a, ast.Name) and a.id == "result") or norm(a) == "result is not None")
     for r in live(cfg, rets):
-        # predecessor-based: the return must be directly dominated by an assert or lie on the true edge of `if result`
-        p = cfg.all_paths_pass(cfg.entry, [r], asserts, avoid_edges=[(t, "t") for t in rtests])
-        # ignore paths that only exist because `result` was assigned and the loop came back: require gate right before return
-        preds = [u for (u, lab) in cfg.pred[r]]
-        ok_local = all(u in asserts for u in preds) or _inside_true_branch(cfg.nodes[r].ast, "result")
-        ck.check(ok_local, "G-DOM", f"_build_eval_tree|result-known-before-return|L{cfg.nodes[r].text()[:40]}", fb.loc(cfg.nodes[r].ast),
-                 "`result` is asserted non-None (or tested) before it is returned",
-                 f"`{cfg.nodes[r].text()}` can return None as a sub-tree: a dangling operator (e.g. '3 m +') would be evaluated as a unary operation instead of raising")
+        p = cfg.path(cfg.entry, [r], avoid=set(asserts) | set(assigns), avoid_edges=set(truthy))
+        ck.check(p is None, "G-DOM", f"_build_eval_tree|result-known-before-return|L{cfg.nodes[r].text()[:40]}", fb.loc(cfg.nodes[r].ast),
+                 "`result` is assigned, tested or asserted non-None on every path to this return",
+                 f"`{cfg.nodes[r].text()}` can return None as a sub-tree: a dangling operator (e.g. '3 m +') would be evaluated as a unary operation instead of raising", witness(cfg, p))
     # parentheses
     tests = {("unopened", "prev_op == '<none>'"): None, ("unclosed", "prev_op == '('"): None}
     for (name, cond) in tests:
@@ -270,12 +280,26 @@ def run(ck, ix, tier):
     fe = ix.func(PE, "EvalTreeNode.evaluate")
     ck.analysed(fe)
     cfge = cfg_of(fe)
-    for name, cond in (("binary", "op_text not in bin_op"), ("unary", "op_text not in un_op")):
-        ts = [n.id for n in cfge.nodes if n.kind == "test" and norm(n.ast) == cond]
-        ck.check(bool(ts) and all(edge_leads_only_to_raise(cfge, t, "t") is None for t in ts), "G-DOM", f"evaluate|unknown-{name}-operator-raises", fe.loc(), f"an unknown {name} operator raises", f"an unknown {name} operator no longer raises")
-    src = norm(fe.node)
-    ck.check("bin_op[op_text](self.left.evaluate(define_op, bin_op, un_op), self.right.evaluate(define_op, bin_op, un_op))" in src, "G-PROV", "evaluate|left-then-right", fe.loc(), "binary node = op(left, right)", "binary nodes are no longer evaluated as op(left, right)")
-    ck.check("op_text = self.operator.string if self.operator else ''" in src, "G-PROV", "evaluate|implicit-operator-is-empty-string", fe.loc(), "a node without operator token is juxtaposition", "implicit operators are no longer looked up as ''")
+    from .. import shape
+    from ..lib import guarded
+    for name, tbl in (("binary", "bin_op"), ("unary", "un_op")):
+        # candidates by role: every read `tbl[key]` of the operator table
+        reads = nodes_with(cfge, lambda x, tbl=tbl: isinstance(x, ast.Subscript) and isinstance(x.ctx, ast.Load) and isinstance(x.value, ast.Name) and x.value.id == tbl)
+        ck.floor("G-DOM", len(reads), 1, f"reads of the {name} operator table in evaluate")
+        guarded(ck, fe, cfge, reads, lambda a, tbl=tbl: isinstance(a, ast.Compare) and isinstance(a.ops[0], ast.In) and isinstance(a.comparators[0], ast.Name) and a.comparators[0].id == tbl,
+                "G-DOM", f"evaluate|unknown-{name}-operator-raises", f"the {name} operator table is only read for operators it contains",
+                f"the {name} operator table is read without a membership test: an unknown {name} operator no longer raises DefinitionSyntaxError")
+    bins = []
+    for c in [c for c in walk_local(fe.node) if isinstance(c, ast.Call)]:
+        r = shape.resolve(c, fe.node)
+        if isinstance(r, ast.Call) and isinstance(r.func, ast.Subscript) and "bin_op" in norm(r.func.value):
+            bins.append((c, shape.match("_T[_K](self.left.evaluate(_1, _2, _3), self.right.evaluate(_1, _2, _3))", r), r))
+    ck.check(len(bins) >= 1, "G-PROV", "evaluate|binary-node-applies-table-entry", fe.loc(), "a binary node applies the looked-up operator", "no application of the binary operator table to two evaluated operands was found")
+    for c, m, r in bins:
+        ck.check(m is not None, "G-PROV", "evaluate|left-then-right", fe.loc(c), "binary node = op(left, right)", f"`{norm(r)[:160]}`: a binary node must be evaluated as op(left.evaluate(...), right.evaluate(...)) with the same operator tables passed down")
+        if m is not None:
+            ck.check(m["_K"].replace('"', "'") == "self.operator.string if self.operator else ''", "G-PROV", "evaluate|implicit-operator-is-empty-string", fe.loc(c), "a node without operator token is juxtaposition ('')",
+                     f"the binary operator is looked up as `{m['_K']}`: a node without operator token must be looked up as '' (implicit multiplication)")
 
     # sign sets of the exponent look-ahead (writer) and its consumer (reader)
     tok = ix.func(PE, "uncertainty_tokenizer")
